@@ -204,7 +204,7 @@ fn build(t: &Tpl, pos: u8, env: &HashMap<String, String>) -> (Vec<String>, Optio
 
 /// Long values and long argument lists: what is bound must still be the value, whole and once.
 fn scale(w: &mut Worker) {
-    let sizes: Vec<usize> = w.tier.pick(vec![300, 70_000], vec![300, 8192, 70_000, 1_000_003]);
+    let sizes: Vec<usize> = with_thresholds_usize(w.tier.pick(vec![300, 70_000], vec![300, 8192, 70_000, 1_000_003]), w.tier.pick(4096, 65536));
     for &n in &sizes {
         // a value of n characters made of the characters binding must not interpret
         let unit = "ab ${v} %{w} \\ # \" x";
@@ -212,7 +212,7 @@ fn scale(w: &mut Worker) {
         text.push_str("v = set short\nw = set \"p q\"\nx = set ${s}\nsame = equals ${x} ${s}\ny = set pre${s}post\nyl = length ${y}\nwant = calc ${len} + 7\nfits = equals ${yl} ${want}\narr = array ${s} ${s}\nan = array_length ${arr}\nfirst = array_get ${arr} 0\nsame_item = equals ${first} ${s}\nrelease ${arr}\ns = set done\nx = set done\ny = set done\nfirst = set done");
         scale_case(w, &format!("long-value chars {}", n), &text, &[("same", Some("true".into())), ("fits", Some("true".into())), ("an", Some("2".into())), ("same_item", Some("true".into()))]);
     }
-    let counts: Vec<usize> = w.tier.pick(vec![300, 3000], vec![300, 3000, 30000]);
+    let counts: Vec<usize> = with_thresholds_usize(w.tier.pick(vec![300, 3000], vec![300, 3000, 30000]), w.tier.pick(4096, 65536));
     for &n in &counts {
         // n words spread by %{..} are n arguments; n arguments written out are n arguments
         let text = format!(
